@@ -94,6 +94,50 @@ pub fn spec(id: &str) -> Option<Spec> {
             worker_timeout_s: |t| t.pick(1500, 6 * 3600),
             rayon_threads: 16,
         },
+        "C14" => Spec {
+            id: "C14",
+            level: "exploration",
+            rule: "Seeded 0-3 point mutants (18 mutation kinds: statement delete/swap/duplicate, libfunc/arg/result \
+                   substitution, branch retarget incl. out-of-range, generic-arg add/remove/retype/extreme values, \
+                   generic id swap, entry-point move, signature edit, declaration reorder, declared-type-info flip, \
+                   return edit, arg/branch arity edit) of every parseable Sierra program in the repo (.sierra files and \
+                   sierra_code sections) go through ProgramRegistryInfo::new -> calc_metadata (linear; legacy on every \
+                   2nd, circuits excluded there) -> compile under catch_unwind with RLIMIT_AS=6GiB and a crash journal; \
+                   plus felt-level mutants of every *.contract_class.json through extract_sierra_program -> \
+                   CasmContractClass::from_contract_class. Non-trivial = distinct mutant index whose program differs \
+                   from its base (felt mutants: every evaluated one).",
+            floor: |t| t.pick(20_000, 500_000),
+            shards: |_| 16,
+            crash_is_violation: true,
+            assumptions: &[
+                "allocation failure under RLIMIT_AS=6GiB counts as unbounded allocation",
+                "a worker exceeding its watchdog is reported as inconclusive together with the case it was running",
+                "circuit programs are not fed to the legacy gas solver (documented as unsupported there)",
+            ],
+            worker_timeout_s: |t| t.pick(1200, 5 * 3600),
+            rayon_threads: 1,
+        },
+        "C15" => Spec {
+            id: "C15",
+            level: "exploration",
+            rule: "Same mutant stream as C14 (plus the unmutated corpus programs, 1 in 10). For every program that \
+                   registry+metadata+compile ACCEPT, an independent forward data-flow checker (own work-list, own \
+                   variable->type map, libfunc signatures from the registry, own copy/drop table for the simple core \
+                   types) must accept it too: argument types equal, each variable consumed exactly once, merges agree on \
+                   variable set and types, branches of multi-branch libfuncs land on branch_align, returns match the \
+                   signature and leave nothing, dup/drop only on types that allow it, no statement in two functions. \
+                   Non-trivial = distinct mutant that differs from its base; `accepted_mutants` counts the ones that \
+                   reached the oracle.",
+            floor: |t| t.pick(20_000, 500_000),
+            shards: |_| 16,
+            crash_is_violation: false,
+            assumptions: &[
+                "libfunc signatures (parameter/branch output types, BranchAlign marker) are read from the program registry",
+                "the checker shares no code with annotations.rs / references.rs / edit_state.rs",
+            ],
+            worker_timeout_s: |t| t.pick(1200, 5 * 3600),
+            rayon_threads: 1,
+        },
         _ => return None,
     })
 }
@@ -111,6 +155,7 @@ pub fn worker(id: &str, ctx: &mut Ctx) {
         "C09" => crate::frontend::c09_worker(ctx),
         "C10" => crate::frontend::c10_worker(ctx),
         "C02" | "C04" | "C17" => crate::execchecks::exec_worker(ctx, id),
+        "C14" | "C15" => crate::sierra_mut::sierra_worker(ctx, id),
         _ => panic!("no worker for {id}"),
     }
 }
@@ -121,6 +166,7 @@ pub fn replay(id: &str, case: &Value) -> Result<Option<String>, String> {
         "C09" => crate::frontend::c09_replay(case),
         "C10" => crate::frontend::c10_replay(case),
         "C02" | "C04" | "C17" => crate::execchecks::exec_replay(id, case),
+        "C14" | "C15" => crate::sierra_mut::sierra_replay(id, case),
         _ => Err(format!("no replay for {id}")),
     }
 }
